@@ -22,6 +22,7 @@ func facts(repo string) (string, error) {
 	}
 	want := map[string]bool{"Push": true, "Pop": true, "Len": true, "PopWait": true}
 	got := map[string][]string{}
+	ctl := map[string][]string{}
 	for _, d := range f.Decls {
 		fd, ok := d.(*ast.FuncDecl)
 		if !ok || fd.Recv == nil || !want[fd.Name.Name] || fd.Body == nil {
@@ -35,6 +36,7 @@ func facts(repo string) (string, error) {
 			continue
 		}
 		got[fd.Name.Name] = accesses(fd.Body)
+		ctl[fd.Name.Name] = ctlShape(fd.Body)
 	}
 	var b strings.Builder
 	b.WriteString("-- generated on every run by go/props/c11 (Facts) from listz/sync_list.go; do not edit\n")
@@ -45,6 +47,9 @@ func facts(repo string) (string, error) {
 			return "", fmt.Errorf("method SyncList.%s not found", name)
 		}
 		fmt.Fprintf(&b, "/-- shared-memory accesses of `%s` in source order -/\ndef %sOps : List SrcOp :=\n  [%s]\n\n", name, strings.ToLower(name), strings.Join(ops, ", "))
+	}
+	for _, name := range []string{"Push", "Pop", "Len"} {
+		fmt.Fprintf(&b, "/-- control skeleton of `%s`: loops, branches, returns, calls of anything that is not a\nsync/atomic operation, `runtime.Gosched` or a conversion -/\ndef %sCtl : List SrcOp :=\n  [%s]\n\n", name, strings.ToLower(name), strings.Join(ctl[name], ", "))
 	}
 	pw, ok := got["PopWait"]
 	if !ok {
@@ -223,6 +228,46 @@ func popWaitShape(fd *ast.FuncDecl) []string {
 						ops = append(ops, ".ticker")
 					case id.Name == "atomic":
 						ops = append(ops, fmt.Sprintf(".other %q", "atomic."+sel.Sel.Name))
+					}
+				}
+			}
+		}
+		return true
+	})
+	return ops
+}
+
+// ctlShape: the control skeleton of a method body in source order — loops, branches,
+// returns, and calls of anything that is not sync/atomic, runtime.Gosched or a type
+// conversion (a helper such as `uniproc()`, `runtime.GOMAXPROCS`, a second loop walking the
+// chain … all change it).  Conditions are not rendered, so renaming locals is harmless.
+func ctlShape(body *ast.BlockStmt) []string {
+	conv := map[string]bool{"int": true, "int64": true, "int32": true, "uint64": true, "uint32": true, "uintptr": true, "len": true}
+	var ops []string
+	ast.Inspect(body, func(n ast.Node) bool {
+		switch x := n.(type) {
+		case *ast.ForStmt, *ast.RangeStmt:
+			ops = append(ops, ".loop")
+		case *ast.IfStmt:
+			ops = append(ops, ".cond \"if\"")
+			if x.Else != nil {
+				ops = append(ops, ".cond \"else\"")
+			}
+		case *ast.SwitchStmt, *ast.TypeSwitchStmt, *ast.SelectStmt, *ast.GoStmt, *ast.DeferStmt, *ast.BranchStmt:
+			ops = append(ops, fmt.Sprintf(".other %q", fmt.Sprintf("%T", n)))
+		case *ast.ReturnStmt:
+			ops = append(ops, ".ret")
+		case *ast.CallExpr:
+			switch f := x.Fun.(type) {
+			case *ast.Ident:
+				if !conv[f.Name] {
+					ops = append(ops, fmt.Sprintf(".other %q", "call "+f.Name))
+				}
+			case *ast.SelectorExpr:
+				if id, ok := f.X.(*ast.Ident); ok {
+					full := id.Name + "." + f.Sel.Name
+					if id.Name != "atomic" && full != "runtime.Gosched" && full != "unsafe.Pointer" {
+						ops = append(ops, fmt.Sprintf(".other %q", "call "+full))
 					}
 				}
 			}
